@@ -122,7 +122,7 @@ def plant(rng, arch, b):
         b.text += "@defn "
         p1 = b.mark()
         b.text += "dupc, 2" + sfx + "\n"
-        return kind, "A", [p0, p1], trailer
+        return kind, "A", [p1], trailer           # the offending token is the name being defined again
     if kind == "duplabel":
         ind2 = rng.choice(["", " ", "\t "])
         b.text += ind2
